@@ -730,6 +730,38 @@ def rule_return_value_untouched(model):
     if n < 1:
         raise AnalysisError('C14.R10: the DTReturn handler of the template '
                             'call was not found')
+    # ... and the tag itself raises DTReturn with the value as computed:
+    # the looked-up / evaluated value is not an operand of and / or (the
+    # `c and a or b` idiom replaces every false value -- 0, '', [], None --
+    # by the other arm)
+    rt = model.func('DT_Return', 'ReturnTag.render')
+    m = 0
+    for x in own_nodes(rt.node):
+        if not (isinstance(x, ast.Raise) and isinstance(x.exc, ast.Call)
+                and 'DTReturn' in norm(x.exc.func) and x.exc.args):
+            continue
+        m += 1
+        a0 = x.exc.args[0]
+        vals = [a0]
+        if isinstance(a0, ast.Name):
+            vals = [d for d in model.local_defs(rt, a0.id)
+                    if isinstance(d, ast.AST)] or [a0]
+        for v in vals:
+            filt = [b for b in ast.walk(v) if isinstance(b, ast.BoolOp) and
+                    any(isinstance(c, (ast.Call, ast.Subscript))
+                        for o in b.values[:-1] for c in ast.walk(o))]
+            r.instance(rt.where, v, 'as computed' if not filt
+                       else 'FILTERED BY TRUTH VALUE')
+            if filt:
+                r.finding(rt.where, v, 'the value of dtml-return passes '
+                          'through `and` / `or`: a computed value that is '
+                          'false (0, an empty string or list, None) is '
+                          'replaced by the other operand -- here the '
+                          'expression text is then looked up as a name and '
+                          'raises KeyError', node=v, ctx=rt)
+    if m < 1:
+        raise AnalysisError('C14.R10: raise DTReturn(...) not found in '
+                            'ReturnTag.render')
     return r
 
 
@@ -746,9 +778,53 @@ def rule_handler_table(model):
         'the compiled try / raise tag')
 
 
+def rule_handler_order(model):
+    r = RuleResult('C14.R11', 'the handler table lists the except clauses '
+                   'in source order (the first clause that matches wins, a '
+                   'bare except included): every entry is appended while '
+                   'the clauses are walked, in the iteration of its own '
+                   'clause -- none is held back and added after the walk, '
+                   'none is inserted in front')
+    fi = model.func('DT_Try', 'Try.__init__')
+    n = 0
+    for f in model.closure(fi):
+        for c in own_nodes(f.node):
+            if not (isinstance(c, ast.Call) and isinstance(
+                    c.func, ast.Attribute) and c.func.attr in (
+                    'append', 'insert', 'extend') and
+                    'handlers' in norm(c.func.value)):
+                continue
+            n += 1
+            loops = [a for a in ancestors(c) if isinstance(a, ast.For)]
+            walk = [lp for lp in loops if 'blocks' in norm(lp.iter) or any(
+                isinstance(t, ast.Name) and 'section' in t.id
+                for t in ast.walk(lp.target))]
+            ok = c.func.attr == 'append' and bool(walk)
+            if ok:
+                # the entry is this iteration's clause
+                tv = {t.id for t in ast.walk(walk[-1].target)
+                      if isinstance(t, ast.Name)}
+                used = {x.id for x in ast.walk(c.args[0])
+                        if isinstance(x, ast.Name)} if c.args else set()
+                ok = bool(tv & used)
+            r.instance(f.where, c, 'in source order' if ok
+                       else 'OUT OF ORDER')
+            if not ok:
+                r.finding(f.where, c, 'a handler is added to the table '
+                          'outside the walk over the clauses (or not at the '
+                          'end): the table is no longer in source order, so '
+                          'when two clauses match an exception -- a bare '
+                          'except written before a named one -- the wrong '
+                          'one handles it', node=c, ctx=f)
+    if n < 2:
+        raise AnalysisError(f'C14.R11: only {n} handler-table appends found '
+                            'in Try.__init__')
+    return r
+
+
 RULES = [_inl(rule_return), _inl(rule_placement), _inl(rule_raise_exit),
          rule_handler_table, _inl(rule_error_type_name),
-         _inl(rule_return_value_untouched)]
+         _inl(rule_return_value_untouched), _inl(rule_handler_order)]
 EXPLANATION = (
     'Who-may-catch analysis: least set of functions that can let DTReturn '
     'out (call graph incl. the block dispatch of render_blocks_), every try '
